@@ -47,7 +47,9 @@ pub const INFO: Info = Info {
            cleavage, no restriction, 0-2 missed cleavages, semi-enzymatic, non-specific; variable modifications on \
            ^ $ [ ] (with and without residue) and residues, 1-3 per peptide, several masses per key, overlapping \
            candidates (^ and [ with the same mass); non-overlapping static modifications; generated decoys and \
-           FASTA-supplied decoys (tagged accessions, peptides shared between tagged and untagged proteins); mass \
+           FASTA-supplied decoys; about 3 in 8 inputs already CONTAIN decoy-tagged records placed first / interleaved \
+           (a tagged record directly before an untagged one) / last, with generate_decoys = true (they must be skipped \
+           without trace) or false (they are the decoys) (tagged accessions, peptides shared between tagged and untagged proteins); mass \
            window sometimes cutting the form list; directed cases: the two fixed C08 defects, palindromic / short \
            peptides whose reversal is a target, a FASTA without any peptide (panic class, trivial); every case is also \
            rebuilt 4 times from a fresh Parameters value (new HashMap seeds). \
@@ -552,12 +554,88 @@ fn tag_some(rng: &mut Rng, r: &mut Req, share: bool) {
     rng.shuffle(&mut r.recs);
 }
 
+
+/// where the decoy-tagged records of the input stand relative to the untagged ones
+#[derive(Copy, Clone, PartialEq)]
+enum Place {
+    First,
+    Interleaved,
+    Last,
+}
+
+/// a FASTA that already CONTAINS decoy-tagged records (`rev_` accessions), placed first / interleaved / last.
+/// With `gen = true` `Fasta::parse` must skip them entirely (their residues must not leak into a neighbouring
+/// record, no peptide of the database may derive from them, decoys are reversals of the untagged proteins);
+/// with `gen = false` they are the decoys. Tagged sequences are reversals of untagged ones or unrelated blocks,
+/// so that a peptide that leaks from them is foreign to every untagged protein.
+fn with_tagged(rng: &mut Rng, r: &mut Req, gen: bool, place: Place, max_total: usize) {
+    r.gen = gen;
+    let targets: Vec<(String, String)> = std::mem::take(&mut r.recs);
+    let nt = targets.len().max(1);
+    let want = rng.range(1, 3) as usize;
+    let ntag = want.min(max_total.saturating_sub(1)).max(1);
+    let keep_t = nt.min(max_total - ntag).max(1);
+    let targets: Vec<(String, String)> = targets.into_iter().take(keep_t).collect();
+    let mut tagged: Vec<(String, String)> = Vec::new();
+    for i in 0..ntag {
+        let (a, q) = targets[i % targets.len()].clone();
+        let seq: String = match rng.below(3) {
+            0 => q.chars().rev().collect(),
+            1 => format!("{}{}", block(rng, 5, 9), block(rng, 5, 9)),
+            _ => {
+                let mut v: Vec<char> = q.chars().collect();
+                if v.len() > 2 {
+                    let n = v.len();
+                    v[1..n - 1].reverse();
+                }
+                v.into_iter().collect()
+            }
+        };
+        tagged.push((format!("rev_{}{}", a, if i >= targets.len() { "b" } else { "" }), seq));
+    }
+    r.recs = match place {
+        Place::First => tagged.into_iter().chain(targets).collect(),
+        Place::Last => targets.into_iter().chain(tagged).collect(),
+        Place::Interleaved => {
+            // tagged, untagged, tagged, untagged, ... (a tagged record directly before an untagged one)
+            let mut out = Vec::new();
+            let mut ti = tagged.into_iter();
+            let mut ui = targets.into_iter();
+            loop {
+                let a = ti.next();
+                let b = ui.next();
+                if a.is_none() && b.is_none() {
+                    break;
+                }
+                out.extend(a);
+                out.extend(b);
+            }
+            out
+        }
+    };
+}
+
+fn place_of(rng: &mut Rng) -> (Place, &'static str) {
+    match rng.below(3) {
+        0 => (Place::First, "tagged_records_first"),
+        1 => (Place::Interleaved, "tagged_records_interleaved"),
+        _ => (Place::Last, "tagged_records_last"),
+    }
+}
+
 fn emit_req(emit: &mut dyn FnMut(Case), r: &Req, tags: &[&'static str]) {
     let mut c = Case::new(write_req(r));
     for t in tags {
         c = c.tag(t);
     }
     c = c.tag_if(r.gen, "generated_decoys").tag_if(!r.gen, "fasta_decoys_or_none");
+    let has_tagged = r.recs.iter().any(|(a, _)| a.contains(r.tag.as_str()));
+    c = c.tag_if(has_tagged && r.gen, "input_decoys_skipped").tag_if(has_tagged && !r.gen, "input_decoys_used");
+    let tagged_before_target = r
+        .recs
+        .windows(2)
+        .any(|w| w[0].0.contains(r.tag.as_str()) && !w[1].0.contains(r.tag.as_str()));
+    c = c.tag_if(tagged_before_target, "tagged_directly_before_untagged");
     c = c.tag_if(r.semi, "semi_enzymatic").tag_if(r.cleave.is_empty(), "non_specific");
     c = c.tag_if(!r.vars.is_empty(), "variable_mods").tag_if(!r.statics.is_empty(), "static_mods");
     c = c.tag_if(r.recs.len() <= 5, "all_permutations").tag_if(r.recs.len() > 5, "sampled_permutations");
@@ -637,6 +715,21 @@ fn directed(emit: &mut dyn FnMut(Case)) {
     // duplicated accession (the list names it once)
     let r = plain(vec![("P1", "AAAAAKCCCCCK"), ("P1", "CCCCCKGGGGGK")]);
     emit_req(emit, &r, &["directed", "duplicate_accession"]);
+    // the input already contains decoy-tagged records: first / interleaved / last, skipped (gen) or used (!gen).
+    // A reader that lets the residues of a skipped record leak into the next one puts foreign peptides
+    // (here CCCCCK / GGGGGK / MMMMMK) into the target database.
+    for (gen, recs, tag) in [
+        (true, vec![("rev_D1", "CCCCCKGGGGGK"), ("T1", "AAAAAKSSSSSK")], "tagged_records_first"),
+        (true, vec![("rev_D1", "CCCCCKGGGGGK"), ("T1", "AAAAAKSSSSSK"), ("rev_D2", "MMMMMKCCCCCK"), ("T2", "LLLLLKAAAAAK")], "tagged_records_interleaved"),
+        (true, vec![("T1", "AAAAAKSSSSSK"), ("T2", "LLLLLKAAAAAK"), ("rev_D1", "CCCCCKGGGGGK")], "tagged_records_last"),
+        (false, vec![("rev_D1", "CCCCCKGGGGGK"), ("T1", "AAAAAKSSSSSK")], "tagged_records_first"),
+        (false, vec![("T1", "AAAAAKSSSSSK"), ("rev_D1", "CCCCCKGGGGGK"), ("T2", "LLLLLKAAAAAK")], "tagged_records_interleaved"),
+        (false, vec![("T1", "AAAAAKSSSSSK"), ("rev_D1", "CCCCCKGGGGGK")], "tagged_records_last"),
+    ] {
+        let mut r = plain(recs);
+        r.gen = gen;
+        emit_req(emit, &r, &["directed", tag]);
+    }
     // FASTA without any peptide: Parameters::build panics (outside the statement; trivial)
     let r = plain(vec![("P1", "AAK")]);
     let c = Case::new(write_req(&r)).tag("directed").tag("no_peptide_panic").nontrivial(false);
@@ -681,12 +774,20 @@ pub fn gen(rng: &mut Rng, tier: Tier, emit: &mut dyn FnMut(Case)) {
         let np = rng.range(2, 5) as usize;
         let recs = proteins(rng, nrec, np, 4, 5, 9);
         let mut r = base_req(rng, recs);
-        if rng.chance(1, 4) {
-            tag_some(rng, &mut r, false);
-            r.recs.truncate(5);
-            emit_req(emit, &r, &["small", "fasta_decoys"]);
-        } else {
-            emit_req(emit, &r, &["small"]);
+        match rng.below(8) {
+            0 => {
+                tag_some(rng, &mut r, false);
+                r.recs.truncate(5);
+                emit_req(emit, &r, &["small", "fasta_decoys"]);
+            }
+            1 | 2 | 3 => {
+                // the input contains tagged records: skipped (2 of 3) or used (1 of 3), at a chosen place
+                let gen = !rng.chance(1, 3);
+                let (pl, tag) = place_of(rng);
+                with_tagged(rng, &mut r, gen, pl, 5);
+                emit_req(emit, &r, &["small", tag]);
+            }
+            _ => emit_req(emit, &r, &["small"]),
         }
     }
     // medium
@@ -697,11 +798,18 @@ pub fn gen(rng: &mut Rng, tier: Tier, emit: &mut dyn FnMut(Case)) {
         let recs = proteins(rng, nrec, np, 6, 5, 10);
         let mut r = base_req(rng, recs);
         r.nperm = if thorough { 12 } else { 4 };
-        if rng.chance(1, 4) {
-            tag_some(rng, &mut r, false);
-            emit_req(emit, &r, &["medium", "fasta_decoys"]);
-        } else {
-            emit_req(emit, &r, &["medium"]);
+        match rng.below(8) {
+            0 => {
+                tag_some(rng, &mut r, false);
+                emit_req(emit, &r, &["medium", "fasta_decoys"]);
+            }
+            1 | 2 | 3 => {
+                let gen = !rng.chance(1, 3);
+                let (pl, tag) = place_of(rng);
+                with_tagged(rng, &mut r, gen, pl, 80);
+                emit_req(emit, &r, &["medium", tag]);
+            }
+            _ => emit_req(emit, &r, &["medium"]),
         }
     }
     // large: reach the sequential (<= 2000) and parallel (> 2000) quicksort regimes of par_sort_unstable_by
@@ -723,7 +831,12 @@ pub fn gen(rng: &mut Rng, tier: Tier, emit: &mut dyn FnMut(Case)) {
         r.max_var = 1;
         r.vars = vec![(s("^"), vec![42.010565]), (s("$"), vec![-0.984016]), (s("["), vec![42.010565])];
         r.nperm = if thorough { 6 } else { 3 };
-        emit_req(emit, &r, &["large"]);
+        if nrec == 150 {
+            with_tagged(rng, &mut r, true, Place::Interleaved, 10_000);
+            emit_req(emit, &r, &["large", "tagged_records_interleaved"]);
+        } else {
+            emit_req(emit, &r, &["large"]);
+        }
     }
     // separate stream: FASTA-supplied decoys sharing peptides with targets, strict protein-listing clause
     directed_decoy_listing(emit);
